@@ -337,3 +337,34 @@ Proof.
   split; [apply words_okb_ok; reflexivity|].
   vm_compute. intuition congruence.
 Qed.
+
+(** * the protocol operations of ./check C13 against the theorems above *)
+From Coq Require String.
+From Low Require Import Lib.Val Run.C13 Proofs.NextRunProofs.
+
+(** for EVERY argument list, each of the 17 operations of [ops_C13] (Run/C13.v, Run/NextWide.v) either rejects the
+    arguments as malformed / outside its domain ([VBad]) or produces a model output that its specification side
+    accepts: the functions the driver evaluates are exactly the ones the theorems of this file are about *)
+Theorem C13_ops_model_satisfies_spec : Forall op_ok ops_C13.
+Proof. exact ops_C13_model_satisfies_spec. Qed.
+Print Assumptions C13_ops_model_satisfies_spec.
+
+(** hence no C13 case can be judged MODELBUG: a disagreement is always about the implementation *)
+Theorem C13_never_modelbug : forall d args obs, In d ops_C13 -> fst (judge_op d args obs) <> J_MODELBUG.
+Proof. exact C13_never_modelbug. Qed.
+Print Assumptions C13_never_modelbug.
+
+Example C13_ops_nonvacuous :
+  List.length ops_C13 = 17%nat /\
+  (exists d, In d ops_C13 /\
+     op_run d [VL [VL [VZ 1; VZ 4]]; VZ 3; VZ 128] = VZ 66 /\
+     op_spec d [VL [VL [VZ 1; VZ 4]]; VZ 3; VZ 128] (VZ 66) = true /\
+     op_spec d [VL [VL [VZ 1; VZ 4]]; VZ 3; VZ 128] (VZ 67) = false) /\
+  (exists d, In d ops_C13 /\ op_run d [] = VBad).
+Proof.
+  split; [reflexivity|]. split.
+  - exists (nth 4 ops_C13 (Build_opdef String.EmptyString (fun _ => VBad) (fun _ _ => false))).
+    split; [apply nth_In; vm_compute; repeat constructor|]. vm_compute. auto.
+  - exists (nth 0 ops_C13 (Build_opdef String.EmptyString (fun _ => VBad) (fun _ _ => false))).
+    split; [apply nth_In; vm_compute; repeat constructor|]. reflexivity.
+Qed.
